@@ -186,7 +186,45 @@ func (f lfact) key() string {
 }
 
 // lstate: a conjunction of facts; nil means unreachable.
+// Byte facts (only used by the LEXBOUNDS runs that switch them on): what is known about single bytes of the
+// input buffer, which never changes during a lexer run. bfact: Buffer[idx] is one of the bytes in set; bval: the
+// byte-typed SSA value v (an atom used as a name only) is Buffer[idx]. idx is a linear term like any other; it is
+// rewritten when an atom it mentions is eliminated through an equality and the entry is dropped otherwise.
+type bset [4]uint64
+
+func (b bset) has(c byte) bool { return b[c>>6]&(1<<(c&63)) != 0 }
+func (b *bset) add(c byte)     { b[c>>6] |= 1 << (c & 63) }
+func (b *bset) del(c byte)     { b[c>>6] &^= 1 << (c & 63) }
+func (b bset) empty() bool     { return b[0]|b[1]|b[2]|b[3] == 0 }
+func (b bset) union(o bset) bset {
+	return bset{b[0] | o[0], b[1] | o[1], b[2] | o[2], b[3] | o[3]}
+}
+func (b bset) inter(o bset) bset {
+	return bset{b[0] & o[0], b[1] & o[1], b[2] & o[2], b[3] & o[3]}
+}
+func fullBset() bset { return bset{^uint64(0), ^uint64(0), ^uint64(0), ^uint64(0)} }
+
+type bfact struct {
+	g   atomID // 0: unconditional; else the fact holds when the boolean value g is gp
+	gp  bool
+	idx lin
+	set bset
+}
+
+func (b bfact) key() string {
+	if b.g == 0 {
+		return b.idx.key()
+	}
+	return fmt.Sprintf("[%d=%v]%s", b.g, b.gp, b.idx.key())
+}
+type bval struct {
+	v   atomID
+	idx lin
+}
+
 type lstate struct {
+	bf     []bfact
+	bv     []bval
 	f      []lfact
 	idx    map[string]bool
 	lo, hi map[atomID]int64
@@ -255,17 +293,158 @@ func (t *atomTable) showState(s *lstate) string {
 	for _, f := range s.f {
 		out = append(out, t.showFact(f))
 	}
+	for _, b := range s.bf {
+		var cs []byte
+		n := 0
+		for c := 0; c < 256; c++ {
+			if b.set.has(byte(c)) {
+				n++
+				if len(cs) < 6 {
+					cs = append(cs, byte(c))
+				}
+			}
+		}
+		gs := ""
+		if b.g != 0 {
+			gs = fmt.Sprintf("[%s=%v] ", t.name[b.g], b.gp)
+		}
+		out = append(out, fmt.Sprintf("%sBuffer[%s] in %q(%d)", gs, t.show(b.idx), cs, n))
+	}
+	for _, b := range s.bv {
+		out = append(out, fmt.Sprintf("%s is Buffer[%s]", t.name[b.v], t.show(b.idx)))
+	}
 	return "{" + strings.Join(out, "; ") + "}"
 }
 
 func emptyState() *lstate { return &lstate{idx: map[string]bool{}} }
 
 func (s *lstate) clone() *lstate {
-	out := &lstate{f: append([]lfact{}, s.f...), idx: make(map[string]bool, len(s.idx))}
+	out := &lstate{f: append([]lfact{}, s.f...), idx: make(map[string]bool, len(s.idx)), bf: s.bf, bv: s.bv}
 	for k := range s.idx {
 		out.idx[k] = true
 	}
 	return out
+}
+
+// carry: the byte facts of from (the linear part of s was rebuilt from from's).
+func (s *lstate) carry(from *lstate) *lstate {
+	if s != nil && from != nil {
+		s.bf, s.bv = from.bf, from.bv
+	}
+	return s
+}
+
+func (s *lstate) byteSet(idx lin) (bset, bool) {
+	k := idx.key()
+	for _, b := range s.bf {
+		if b.g == 0 && b.idx.key() == k {
+			return b.set, true
+		}
+	}
+	return fullBset(), false
+}
+
+// guardedByte: the entry for idx under guard g = gp.
+func (s *lstate) guardedByte(g atomID, gp bool, idx lin) (bset, bool) {
+	k := idx.key()
+	for _, b := range s.bf {
+		if b.g == g && b.gp == gp && b.idx.key() == k {
+			return b.set, true
+		}
+	}
+	return fullBset(), false
+}
+
+// withGuardedByte: s ∧ (g = gp ⇒ Buffer[idx] ∈ set).
+func (s *lstate) withGuardedByte(g atomID, gp bool, idx lin, set bset) *lstate {
+	if s == nil || g == 0 {
+		return s.withByte(idx, set)
+	}
+	if _, has := s.guardedByte(g, gp, idx); has {
+		return s
+	}
+	out := s.clone()
+	out.bf = append(append([]bfact{}, s.bf...), bfact{g, gp, idx, set})
+	return out
+}
+
+// activateBytes: the guard is known to have the value gp.
+func (s *lstate) activateBytes(g atomID, gp bool) *lstate {
+	out := s
+	for _, b := range s.bf {
+		if b.g == g && b.gp == gp && out != nil {
+			out = out.withByte(b.idx, b.set)
+		}
+	}
+	return out
+}
+
+// withByte: s ∧ Buffer[idx] ∈ set (nil when that leaves no byte).
+func (s *lstate) withByte(idx lin, set bset) *lstate {
+	if s == nil {
+		return nil
+	}
+	k := idx.key()
+	out := s.clone()
+	nbf := make([]bfact, 0, len(s.bf)+1)
+	found := false
+	for _, b := range s.bf {
+		if b.g == 0 && b.idx.key() == k {
+			found = true
+			b.set = b.set.inter(set)
+			if b.set.empty() {
+				return nil
+			}
+		}
+		nbf = append(nbf, b)
+	}
+	if !found {
+		if set.empty() {
+			return nil
+		}
+		nbf = append(nbf, bfact{idx: idx, set: set})
+	}
+	out.bf = nbf
+	return out
+}
+
+func (s *lstate) valIdx(v atomID) (lin, bool) {
+	for _, b := range s.bv {
+		if b.v == v {
+			return b.idx, true
+		}
+	}
+	return lin{}, false
+}
+
+func (s *lstate) withVal(v atomID, idx lin) *lstate {
+	if s == nil {
+		return nil
+	}
+	out := s.clone()
+	nbv := make([]bval, 0, len(s.bv)+1)
+	for _, b := range s.bv {
+		if b.v != v {
+			nbv = append(nbv, b)
+		}
+	}
+	out.bv = append(nbv, bval{v, idx})
+	return out
+}
+
+func (s *lstate) bytesKey() string {
+	if len(s.bf) == 0 && len(s.bv) == 0 {
+		return ""
+	}
+	var ks []string
+	for _, b := range s.bf {
+		ks = append(ks, fmt.Sprintf("B[%s]%x", b.key(), b.set))
+	}
+	for _, b := range s.bv {
+		ks = append(ks, fmt.Sprintf("V%d=%s", b.v, b.idx.key()))
+	}
+	sort.Strings(ks)
+	return "|" + strings.Join(ks, ";")
 }
 
 // with returns s ∧ facts (facts normalised; trivially true ones dropped). A trivially false
@@ -360,7 +539,7 @@ func (s *lstate) key() string {
 		ks = append(ks, f.key())
 	}
 	sort.Strings(ks)
-	return strings.Join(ks, ";")
+	return strings.Join(ks, ";") + s.bytesKey()
 }
 
 func (s *lstate) computeBounds(at *atomTable) {
@@ -635,7 +814,7 @@ func (s *lstate) prune(at *atomTable) *lstate {
 			keep = append(keep, e.f)
 		}
 	}
-	return emptyState().with(keep...)
+	return emptyState().with(keep...).carry(s)
 }
 
 // atomsOf returns the atoms occurring in the state (including guards).
@@ -652,6 +831,20 @@ func (s *lstate) atomsOf() map[atomID]bool {
 			out[t.a] = true
 		}
 	}
+	for _, b := range s.bf {
+		if b.g != 0 {
+			out[b.g] = true
+		}
+		for _, t := range b.idx.t {
+			out[t.a] = true
+		}
+	}
+	for _, b := range s.bv {
+		out[b.v] = true
+		for _, t := range b.idx.t {
+			out[t.a] = true
+		}
+	}
 	return out
 }
 
@@ -662,6 +855,61 @@ func (s *lstate) eliminate(at *atomTable, drop map[atomID]bool) *lstate {
 		return s
 	}
 	cur := s.f
+	bfCur, bvCur := s.bf, s.bv
+	// byte entries: rewritten through the equality used for the atom, dropped when there is none
+	rewriteBytes := func(a atomID, eqR *lin) {
+		touched := false
+		for _, b := range bfCur {
+			if b.idx.coef(a) != 0 || b.g == a {
+				touched = true
+			}
+		}
+		for _, b := range bvCur {
+			if b.v == a || b.idx.coef(a) != 0 {
+				touched = true
+			}
+		}
+		if !touched {
+			return
+		}
+		var nbf []bfact
+		for _, b := range bfCur {
+			if b.g == a {
+				continue
+			}
+			if b.idx.coef(a) != 0 {
+				if eqR == nil {
+					continue
+				}
+				b.idx = b.idx.subst(a, *eqR)
+			}
+			// two entries may have become one
+			merged := false
+			for i := range nbf {
+				if nbf[i].key() == b.key() {
+					nbf[i].set = nbf[i].set.inter(b.set)
+					merged = true
+				}
+			}
+			if !merged {
+				nbf = append(nbf, b)
+			}
+		}
+		var nbv []bval
+		for _, b := range bvCur {
+			if b.v == a {
+				continue
+			}
+			if b.idx.coef(a) != 0 {
+				if eqR == nil {
+					continue
+				}
+				b.idx = b.idx.subst(a, *eqR)
+			}
+			nbv = append(nbv, b)
+		}
+		bfCur, bvCur = nbf, nbv
+	}
 	var order []atomID
 	for a := range drop {
 		order = append(order, a)
@@ -676,6 +924,7 @@ func (s *lstate) eliminate(at *atomTable, drop map[atomID]bool) *lstate {
 			}
 		}
 		if !occurs {
+			rewriteBytes(a, nil)
 			continue
 		}
 		// facts guarded by a are dropped
@@ -721,6 +970,7 @@ func (s *lstate) eliminate(at *atomTable, drop map[atomID]bool) *lstate {
 			}
 			fmt.Println()
 		}
+		rewriteBytes(a, eqR)
 		if eqR != nil {
 			for _, f := range withA {
 				nl := normGE(f.l.subst(a, *eqR))
@@ -765,7 +1015,11 @@ func (s *lstate) eliminate(at *atomTable, drop map[atomID]bool) *lstate {
 		cur = rest
 	}
 	out := emptyState()
-	return out.with(cur...).prune(at)
+	res := out.with(cur...)
+	if res != nil {
+		res.bf, res.bv = bfCur, bvCur
+	}
+	return res.prune(at)
 }
 
 // rename atoms (simultaneously).
@@ -790,7 +1044,35 @@ func (s *lstate) renameAll(m map[atomID]atomID) *lstate {
 		}
 		fs = append(fs, lfact{g: g, gp: f.gp, l: nl})
 	}
-	return out.with(fs...)
+	res := out.with(fs...)
+	if res != nil && (len(s.bf) > 0 || len(s.bv) > 0) {
+		ren := func(l lin) lin {
+			nl := lin{k: l.k}
+			for _, t := range l.t {
+				a := t.a
+				if b, ok := m[a]; ok {
+					a = b
+				}
+				nl = nl.add(linAtom(a).scale(t.c))
+			}
+			return nl
+		}
+		for _, b := range s.bf {
+			g := b.g
+			if ng, ok := m[g]; ok && g != 0 {
+				g = ng
+			}
+			res.bf = append(res.bf, bfact{g, b.gp, ren(b.idx), b.set})
+		}
+		for _, b := range s.bv {
+			v := b.v
+			if nv, ok := m[v]; ok {
+				v = nv
+			}
+			res.bv = append(res.bv, bval{v, ren(b.idx)})
+		}
+	}
+	return res
 }
 
 // generalise: variants of every unguarded fact of s with a multiple (±1) of a term known to be
@@ -922,7 +1204,7 @@ func (s *lstate) normalise(at *atomTable) (*lstate, []linDef) {
 			}
 		}
 	}
-	out := emptyState().with(cur...)
+	out := emptyState().with(cur...).carry(s)
 	if out == nil {
 		out = s
 		defs = nil
@@ -1211,6 +1493,41 @@ func joinLin(at *atomTable, in []*lstate, zeros [][]lin, restrictTo *lstate, ext
 		}
 	}
 	res := emptyState().with(kept...)
+	if res != nil {
+		// byte facts: entries with the same index term in every input; sets are united
+		for _, b := range live[0].bf {
+			set := b.set
+			ok := true
+			for _, o := range live[1:] {
+				os, has := o.guardedByte(b.g, b.gp, b.idx)
+				if !has && b.g != 0 {
+					// an unconditional fact of the other input is at least as strong
+					os, has = o.byteSet(b.idx)
+				}
+				if !has {
+					ok = false
+					break
+				}
+				set = set.union(os)
+			}
+			if ok {
+				res.bf = append(res.bf, bfact{b.g, b.gp, b.idx, set})
+			}
+		}
+		for _, b := range live[0].bv {
+			ok := true
+			for _, o := range live[1:] {
+				oi, has := o.valIdx(b.v)
+				if !has || oi.key() != b.idx.key() {
+					ok = false
+					break
+				}
+			}
+			if ok {
+				res.bv = append(res.bv, b)
+			}
+		}
+	}
 	for _, zs := range liveZ {
 		if len(zs) > 0 {
 			return res // a phi join: redundant facts may be the ones that survive the next iteration
